@@ -422,3 +422,260 @@ Lemma ex_files_ok :
      Info (bs "SSH public key") [(bs "Type", bs "ssh-ed25519"); (bs "Comment", bs "two words");
                                  (bs "Algorithm", bs "EdDSA"); (bs "Curve", bs "Ed25519")] []].
 Proof. repeat match goal with |- _ /\ _ => split end; vm_compute; reflexivity. Qed.
+
+(* ---------- what the key parser never does, and what it refuses ---------- *)
+
+(* C02's model of ParsePublicKey returns a key or an error on EVERY octet string: no run-time panic *)
+Lemma ssh_parse_public_no_panic : forall o blob s, MK.ssh_parse_public o blob <> Panic s.
+Proof.
+  intros o blob s. unfold MK.ssh_parse_public.
+  repeat match goal with
+         | |- context [match ?x with _ => _ end] =>
+             match type of x with
+             | option _ => destruct x as [[? ?]|]
+             | bool => destruct x
+             | list _ => destruct x
+             | bytes => destruct x
+             end
+         end; discriminate.
+Qed.
+
+Theorem key_of_model_no_panic : forall point_ok other blob s,
+  (forall b s', other b <> Panic s') -> key_of_model point_ok other blob <> Panic s.
+Proof.
+  intros point_ok other blob s Ho. unfold key_of_model.
+  destruct (MK.ssh_read_string blob) as [[algo r0]|]; [|discriminate].
+  destruct (algo_class_of algo); [| |apply Ho].
+  - unfold lift_key. pose proof (ssh_parse_public_no_panic oracle_none blob).
+    destruct (MK.ssh_parse_public oracle_none blob); try discriminate. now contradiction (H e).
+  - unfold lift_key.
+    set (o := MK.mk_ssh_oracle _ _). pose proof (ssh_parse_public_no_panic o blob).
+    destruct (MK.ssh_parse_public o blob); try discriminate. now contradiction (H e).
+Qed.
+
+(* octets after the last field of a well-formed blob: refused ("ssh: trailing junk in public key"), whatever they are *)
+Theorem key_of_model_trailing : forall point_ok other k x r, skey_ok point_ok k = true ->
+  key_of_model point_ok other (blob_enc k ++ x :: r) = Err "ssh: trailing junk in public key".
+Proof.
+  intros point_ok other [e n|p q g y|c pt|pk] x r H; cbn [blob_enc skey_ok] in H |- *; unfold key_of_model.
+  - apply andb_prop in H as [H Hn]. apply andb_prop in H as [H Hodd]. apply andb_prop in H as [H3 H24].
+    apply N.leb_le in H3. apply N.ltb_lt in H24.
+    assert (Hfe : PK.fits32 (MK.mpint_enc e)).
+    { apply PK.fits32_mpint. pose proof (PK.bitlen_lt_pow e 24). change (2 ^ 24) with 16777216 in *. lia. }
+    unfold MK.ssh_rsa_blob, MK.ssh_parse_public. rewrite <- !app_assoc.
+    rewrite PK.ssh_read_string_enc by (apply PK.fits32_small; cbn; lia).
+    change (algo_class_of (bs "ssh-rsa")) with AFull. cbv beta iota.
+    change (bytes_eqb (bs "ssh-rsa") (bs "ssh-rsa")) with true. cbv beta iota.
+    rewrite PK.ssh_read_string_enc by exact Hfe. cbv beta iota.
+    rewrite PK.ssh_read_string_enc by (now apply small_fits). cbv beta iota.
+    rewrite !PK.mpint_roundtrip, PK.zbitlen_of_N.
+    assert (Hb : (24 <? MK.bitlen e) = false).
+    { apply N.ltb_ge. apply PK.bitlen_lt_pow. exact H24. }
+    rewrite Hb.
+    assert (Hlt : (Z.of_N e <? 3)%Z = false) by (apply Z.ltb_ge; lia).
+    rewrite Hlt. cbn [orb].
+    assert (Hev : Z.even (Z.of_N e) = false).
+    { rewrite <- Z.negb_odd. destruct e as [|pe]; [discriminate|]. cbn [Z.of_N Z.odd N.odd] in *.
+      destruct pe; cbn in *; congruence. }
+    rewrite Hev. reflexivity.
+  - apply andb_prop in H as [H Hy]. apply andb_prop in H as [H Hg]. apply andb_prop in H as [Hb Hq].
+    apply N.eqb_eq in Hb. change (N.size p) with (MK.bitlen p) in Hb.
+    unfold MK.ssh_dss_blob, MK.ssh_parse_public. rewrite <- !app_assoc.
+    rewrite PK.ssh_read_string_enc by (apply PK.fits32_small; cbn; lia).
+    change (algo_class_of (bs "ssh-dss")) with AFull. cbv beta iota.
+    change (bytes_eqb (bs "ssh-dss") (bs "ssh-rsa")) with false.
+    change (bytes_eqb (bs "ssh-dss") (bs "ssh-dss")) with true. cbv beta iota.
+    rewrite PK.ssh_read_string_enc by (apply PK.fits32_mpint; rewrite Hb; lia). cbv beta iota.
+    rewrite PK.ssh_read_string_enc by (now apply small_fits). cbv beta iota.
+    rewrite PK.ssh_read_string_enc by (now apply small_fits). cbv beta iota.
+    rewrite PK.ssh_read_string_enc by (now apply small_fits). cbv beta iota.
+    rewrite !PK.mpint_roundtrip, PK.zbitlen_of_N, Hb. reflexivity.
+  - apply andb_prop in H as [H Hpo]. apply andb_prop in H as [Hlen _].
+    assert (Hf : PK.fits32 pt) by (unfold PK.fits32; apply N.ltb_lt in Hlen; exact Hlen).
+    unfold MK.ssh_ecdsa_blob, MK.ssh_parse_public, ecdsa_fields. rewrite <- !app_assoc.
+    destruct c; cbn [nid] in *;
+      (rewrite PK.ssh_read_string_enc by (apply PK.fits32_small; cbn; lia);
+       match goal with |- context [algo_class_of ?a] => change (algo_class_of a) with AEcdsa end; cbv beta iota;
+       rewrite PK.ssh_read_string_enc by (apply PK.fits32_small; cbn; lia);
+       rewrite PK.ssh_read_string_enc by exact Hf; cbv beta iota;
+       rewrite Hpo; PK.eval_eqb;
+       unfold MK.nist_of_curve; PK.eval_eqb; reflexivity).
+  - apply andb_prop in H as [H _]. apply Nat.eqb_eq in H.
+    unfold MK.ssh_ed25519_blob, MK.ssh_parse_public. rewrite <- !app_assoc.
+    rewrite PK.ssh_read_string_enc by (apply PK.fits32_small; cbn; lia).
+    change (algo_class_of (bs "ssh-ed25519")) with AFull. cbv beta iota.
+    PK.eval_eqb.
+    rewrite PK.ssh_read_string_enc by (apply PK.fits32_small; lia). cbv beta iota.
+    rewrite H. reflexivity.
+Qed.
+
+(* ---------- a known_hosts line whose key blob is refused: the line is refused with the key parser's error ---------- *)
+
+(* parse_key_field consults key_of once, on the decoded base64 field *)
+Definition key_field_pre (l : bytes) : option (bytes * bytes) :=
+  let t := trim_space l in
+  let (b64, rest) := span_word t in
+  match B64.std_decode B64.Std b64 with
+  | None => None
+  | Some key => Some (key, trim_space rest)
+  end.
+
+Lemma parse_key_field_pre : forall key_of l,
+  parse_key_field key_of l =
+    match key_field_pre l with
+    | None => Err "illegal base64 data"
+    | Some (key, c) => match key_of key with Ok k => Ok (k, c) | Err e => Err e | Panic e => Panic e end
+    end.
+Proof.
+  intros key_of l. unfold parse_key_field, key_field_pre. cbv zeta.
+  destruct (span_word (trim_space l)) as [b64 rest].
+  destruct (B64.std_decode B64.Std b64); reflexivity.
+Qed.
+
+(* the key parser that answers every blob with the blob itself: what it makes of a line tells which blob the line
+   parser hands to key_of *)
+Definition echo_key (b : bytes) : result keyinfo := Ok (b, []).
+
+Lemma hosts_line_err : forall key_of l key h c e,
+  hosts_line echo_key l = Some (Ok (h :: key_attrs (key, []) c)) ->
+  key_of key = Err e ->
+  hosts_line key_of l = Some (Err e).
+Proof.
+  intros key_of l key h c e H Hk. unfold hosts_line in *.
+  destruct (trim_space (cut_at 13 l)) as [|x t]; [discriminate|].
+  destruct (x =? 35); [discriminate|].
+  destruct (snd (span_word (x :: t))); [discriminate|].
+  destruct (Nat.ltb (length (fields (x :: t))) 3 || Nat.ltb 5 (length (fields (x :: t)))); [discriminate|].
+  rewrite parse_key_field_pre in *.
+  destruct (key_field_pre (join [32] (drop 2 (strip_marker (fields (x :: t)))))) as [[key' c']|]; [|discriminate].
+  unfold echo_key in H. cbv beta iota in H. injection H as _ H2 _. subst key'.
+  now rewrite Hk.
+Qed.
+
+Theorem hosts_lib_rejected : forall key_of e key err,
+  hosts_entry_ok e = true ->
+  B64.std_decode B64.Std (he_b64 e) = Some key -> key_of key = Err err ->
+  ssh_hosts_lib key_of (hosts_text e) = Err err.
+Proof.
+  intros key_of e key err Hok Hdec Hk. unfold ssh_hosts_lib.
+  assert (Hn : no_lf (hosts_text e) = true).
+  { apply no_crlf_no_lf. unfold hosts_entry_ok in Hok. now apply andb_prop in Hok as [_ Hok]. }
+  rewrite (split_lf_last _ Hn). cbn [first_line].
+  pose proof (hosts_line_entry echo_key e key (key, []) Hok Hdec eq_refl) as H.
+  now rewrite (hosts_line_err key_of _ key _ _ err H Hk).
+Qed.
+
+(* ... in particular a known_hosts entry whose blob is a well-formed key followed by any octets *)
+Theorem hosts_lib_trailing : forall point_ok other k junk e,
+  skey_ok point_ok k = true -> junk <> [] -> bytes_ok junk = true ->
+  hosts_entry_ok e = true -> he_b64 e = B64.encode B64.Std (blob_enc k ++ junk) ->
+  ssh_hosts_lib (key_of_model point_ok other) (hosts_text e) = Err "ssh: trailing junk in public key".
+Proof.
+  intros point_ok other k junk e Hk Hj Hjb Hok Hb.
+  destruct junk as [|x r]; [congruence|].
+  apply (hosts_lib_rejected _ e (blob_enc k ++ x :: r)); [exact Hok| |now apply key_of_model_trailing].
+  rewrite Hb. apply std_decode_encode. rewrite bytes_ok_app, (blob_enc_bytes_ok point_ok k Hk). exact Hjb.
+Qed.
+
+(* ---------- the line parsers never panic when the key parser does not ---------- *)
+
+Section NoPanic.
+  Variable key_of : bytes -> result keyinfo.
+  Hypothesis key_of_calm : forall b s, key_of b <> Panic s.
+
+  Lemma parse_key_field_calm : forall l s, parse_key_field key_of l <> Panic s.
+  Proof.
+    intros l s. rewrite parse_key_field_pre. destruct (key_field_pre l) as [[key c]|]; [|discriminate].
+    pose proof (key_of_calm key). destruct (key_of key); try discriminate. now contradiction (H e).
+  Qed.
+
+  Lemma hosts_line_calm : forall l s, hosts_line key_of l <> Some (Panic s).
+  Proof.
+    intros l s. unfold hosts_line.
+    destruct (trim_space (cut_at 13 l)) as [|x t]; [discriminate|].
+    destruct (x =? 35); [discriminate|].
+    destruct (snd (span_word (x :: t))); [discriminate|].
+    destruct (Nat.ltb (length (fields (x :: t))) 3 || Nat.ltb 5 (length (fields (x :: t)))); [discriminate|].
+    pose proof (parse_key_field_calm (join [32] (drop 2 (strip_marker (fields (x :: t)))))) as H.
+    destruct (parse_key_field key_of (join [32] (drop 2 (strip_marker (fields (x :: t)))))) as [[k c]|e|e]; try discriminate.
+    now contradiction (H e).
+  Qed.
+
+  Lemma auth_line_calm : forall l s, auth_line key_of l <> Some (Panic s).
+  Proof.
+    intros l s. unfold auth_line.
+    destruct (trim_space (cut_at 13 l)) as [|x t]; [discriminate|].
+    destruct (x =? 35); [discriminate|].
+    destruct (snd (span_word (x :: t))) as [|y r]; [discriminate|].
+    pose proof (parse_key_field_calm (y :: r)) as H1.
+    destruct (parse_key_field key_of (y :: r)) as [[k c]|e|e]; [discriminate| |now contradiction (H1 e)].
+    destruct (skip_sp_tab (opt_scan None false (x :: t))) as [|z l2]; [discriminate|].
+    destruct (snd (span_word (z :: l2))) as [|y2 r2]; [discriminate|].
+    pose proof (parse_key_field_calm (y2 :: r2)) as H2.
+    destruct (parse_key_field key_of (y2 :: r2)) as [[k c]|e2|e2]; [discriminate|discriminate|now contradiction (H2 e2)].
+  Qed.
+
+  Lemma first_line_calm : forall f eof ls s, (forall l s', f l <> Some (Panic s')) -> first_line f eof ls <> Panic s.
+  Proof.
+    intros f eof ls s Hf. induction ls as [|l r IH]; cbn [first_line]; [discriminate|].
+    pose proof (Hf l) as H. destruct (f l) as [[a|e|e]|]; try discriminate; [now contradiction (H e)|exact IH].
+  Qed.
+
+  Lemma ssh_libs_calm : forall chunk,
+    is_panic (ssh_auth_lib key_of chunk) = false /\ is_panic (ssh_hosts_lib key_of chunk) = false.
+  Proof.
+    intros chunk. unfold ssh_auth_lib, ssh_hosts_lib. split.
+    - pose proof (fun s => first_line_calm (auth_line key_of) "ssh: no key found"%string (split_lf chunk) s auth_line_calm) as H.
+      destruct (first_line (auth_line key_of) "ssh: no key found"%string (split_lf chunk)); try reflexivity. now contradiction (H e).
+    - pose proof (fun s => first_line_calm (hosts_line key_of) "EOF"%string (split_lf chunk) s hosts_line_calm) as H.
+      destruct (first_line (hosts_line key_of) "EOF"%string (split_lf chunk)); try reflexivity. now contradiction (H e).
+  Qed.
+End NoPanic.
+
+(* a known_hosts file with an entry line (LF or CRLF) whose key blob the key parser refuses is an error as a whole -
+   never a partial listing; all other lines may be anything *)
+Theorem known_hosts_bad_blob : forall key_of data e key err (crlf : bool),
+  (forall b s, key_of b <> Panic s) ->
+  In (hosts_text e ++ (if crlf then [13] else [])) (split_lf data) ->
+  hosts_entry_ok e = true -> B64.std_decode B64.Std (he_b64 e) = Some key -> key_of key = Err err ->
+  exists e', known_hosts (ssh_hosts_lib key_of) data = Err e'.
+Proof.
+  intros key_of data e key err crlf Hcalm Hin Hok Hdec Hk. unfold known_hosts.
+  apply (ssh_file_bad_line _ _ _ _ Hin).
+  - destruct (skip_entry _ (hosts_text_entry_ok e Hok)) as [S1 S2]. destruct crlf; [exact S2|now rewrite app_nil_r].
+  - exists err. destruct crlf; [|rewrite app_nil_r; now apply (hosts_lib_rejected key_of e key)].
+    pose proof (hosts_lib_rejected key_of e key err Hok Hdec Hk) as H. unfold ssh_hosts_lib in *.
+    assert (Hn : no_lf (hosts_text e) = true).
+    { apply no_crlf_no_lf. unfold hosts_entry_ok in Hok. now apply andb_prop in Hok as [_ Hok]. }
+    assert (Hn' : no_lf (hosts_text e ++ [13]) = true).
+    { unfold no_lf in *. rewrite forallb_app, Hn. reflexivity. }
+    rewrite (split_lf_last _ Hn) in H. rewrite (split_lf_last _ Hn'). cbn [first_line] in *.
+    now rewrite hosts_line_cr.
+  - intros l' _. apply (ssh_libs_calm key_of Hcalm).
+Qed.
+
+(* with the modelled key parser: `other` is the only part that could panic *)
+Theorem known_hosts_trailing_is_error : forall point_ok other data k junk e (crlf : bool),
+  (forall b s, other b <> Panic s) ->
+  In (hosts_text e ++ (if crlf then [13] else [])) (split_lf data) ->
+  skey_ok point_ok k = true -> junk <> [] -> bytes_ok junk = true ->
+  hosts_entry_ok e = true -> he_b64 e = B64.encode B64.Std (blob_enc k ++ junk) ->
+  exists e', known_hosts (ssh_hosts_lib (key_of_model point_ok other)) data = Err e'.
+Proof.
+  intros point_ok other data k junk e crlf Ho Hin Hk Hj Hjb Hok Hb.
+  destruct junk as [|x r]; [congruence|].
+  apply (known_hosts_bad_blob _ data e (blob_enc k ++ x :: r) "ssh: trailing junk in public key"%string crlf); try assumption.
+  - intros b s. now apply key_of_model_no_panic.
+  - rewrite Hb. apply std_decode_encode. rewrite bytes_ok_app, (blob_enc_bytes_ok point_ok k Hk). exact Hjb.
+  - now apply key_of_model_trailing.
+Qed.
+
+Theorem key_parser_never_panics : forall point_ok other,
+  (forall b s, other b <> Panic s) ->
+  (forall blob s, key_of_model point_ok other blob <> Panic s) /\
+  (forall chunk, is_panic (ssh_auth_lib (key_of_model point_ok other) chunk) = false /\
+                 is_panic (ssh_hosts_lib (key_of_model point_ok other) chunk) = false).
+Proof.
+  intros point_ok other H. split; [intros blob s; now apply key_of_model_no_panic|].
+  apply ssh_libs_calm. intros b s. now apply key_of_model_no_panic.
+Qed.
